@@ -10,8 +10,8 @@ each as a port and as an internal instance, with every instance role.  Oracle: a
 import itertools
 from ..core import short_exc
 
-LEAF_KINDS = ["in", "out", "inout", "port", "role_hd", "role_dh", "plain"]
-DEEP_KINDS = ["in", "out", "role_hd", "plain"]
+LEAF_KINDS = ["in", "out", "inout", "port", "role_hd", "role_dh", "plain", "src_h", "dest_d"]  # the last two declare one role only
+DEEP_KINDS = ["in", "out", "role_hd", "plain", "dest_d"]
 FLIPS = ["no", "ctor", "fn"]
 TOP_FLIPS = ["no", "ctor", "fn", "fn_of_ctor", "fn_of_fn"]  # flipped() of an already flipped instance un-flips it
 NET_FLIP = {"no": 0, "ctor": 1, "fn": 1, "fn_of_ctor": 0, "fn_of_fn": 0}
@@ -32,9 +32,9 @@ def ref_flatten(tree, inst_name, is_port, inst_flip, inst_role):
                 d = {"in": "INPUT", "out": "OUTPUT", "inout": "INOUT", "port": "NONE"}[kind]
                 if flips % 2 == 1:
                     d = {"INPUT": "OUTPUT", "OUTPUT": "INPUT"}.get(d, d)
-            elif kind in ("role_hd", "role_dh"):
-                src, dest = ("HOST", "DEVICE") if kind == "role_hd" else ("DEVICE", "HOST")
-                d = "OUTPUT" if role == src else "INPUT" if role == dest else "NONE"
+            elif kind in ("role_hd", "role_dh", "src_h", "dest_d"):
+                src, dest = {"role_hd": ("HOST", "DEVICE"), "role_dh": ("DEVICE", "HOST"), "src_h": ("HOST", None), "dest_d": (None, "DEVICE")}[kind]
+                d = "OUTPUT" if role and role == src else "INPUT" if role and role == dest else "NONE"
             else:
                 d = "NONE"
             out["_".join([inst_name] + path + [name])] = (width, d)
@@ -67,6 +67,10 @@ def build_bundle(h, tree, counter, inline_roles=False):
             s = h.Signal(width=width, src=b.roles.HOST, dest=b.roles.DEVICE)
         elif kind == "role_dh":
             s = h.Signal(width=width, src=b.roles.DEVICE, dest=b.roles.HOST)
+        elif kind == "src_h":
+            s = h.Signal(width=width, src=b.roles.HOST)
+        elif kind == "dest_d":
+            s = h.Signal(width=width, dest=b.roles.DEVICE)
         else:
             s = h.Signal(width=width)
         setattr(b, name, s)
@@ -93,6 +97,10 @@ def build_bundle_inline(h, tree, counter):
             ns[name] = h.Signal(width=width, src=host, dest=device)
         elif kind == "role_dh":
             ns[name] = h.Signal(width=width, src=device, dest=host)
+        elif kind == "src_h":
+            ns[name] = h.Signal(width=width, src=host)
+        elif kind == "dest_d":
+            ns[name] = h.Signal(width=width, dest=device)
         else:
             ns[name] = h.Signal(width=width)
     for name, sub, flip, srole in tree["subs"]:
